@@ -481,6 +481,8 @@ def _dict_dearray_decomp(data):
 
         # Convert arrays to lists.
         if isinstance(value, np.ndarray):
+            if value.size == 0 and value.ndim > 1:  # tolist() loses shape
+                key += '__shape-'+'x'.join(str(n) for n in value.shape)
             key += '__array-'+value.dtype.name
             value = value.tolist()
 
@@ -536,6 +538,11 @@ def _dict_array_comp(data):
             dtype = getattr(np, key[ind+8:])
             value = np.asarray(value, dtype=dtype, order='F')
             key = key[:ind]
+            if '__shape-' in key:  # Empty arrays of dimension > 1.
+                ind = key.rindex('__shape-')
+                shape = [int(n) for n in key[ind+8:].split('x')]
+                value = value.reshape(shape, order='F')
+                key = key[:ind]
 
         # Compose complex numbers.
         if '__complex' in key:
